@@ -244,6 +244,22 @@ impl Exec {
             Ev::ForwardDirect { .. } => { if ok { out.monitor_fail("C10", "ForwardFees was accepted from an address that is not the fee distributor", replay.clone()); } }
             Ev::Aggregate { .. } | Ev::Collect { .. } if ok => {
                 if after.dao != before.dao || after.dist != before.dist { out.monitor_fail("C10", "collecting / aggregating paid the DAO or the distributor", replay.clone()); }
+                // a collection on its own: afterwards no registered vault owes anything, no registered pool more than its minimum collectable balance
+                if let Ev::Collect { vaults, .. } = e {
+                    if *vaults {
+                        for (i, v) in self.w.vaults.iter().enumerate() {
+                            let r: Result<white_whale_std::vault_network::vault::ProtocolFeesResponse, _> = self.w.w.app.wrap().query_wasm_smart(v, &white_whale_std::vault_network::vault::QueryMsg::ProtocolFees { all_time: false });
+                            if let Ok(r) = r { if !r.fees.amount.is_zero() {
+                                out.monitor_fail("C10", &format!("after CollectFees the vault of {} still holds {} of pending protocol fees", A[VAULT_ASSETS[i]], r.fees.amount), replay.clone()); } }
+                        }
+                    } else {
+                        for (i, pr) in self.w.pairs.iter().enumerate() {
+                            let r: Result<white_whale_std::pool_network::pair::ProtocolFeesResponse, _> = self.w.w.app.wrap().query_wasm_smart(pr, &white_whale_std::pool_network::pair::QueryMsg::ProtocolFees { asset_id: None, all_time: Some(false) });
+                            if let Ok(r) = r { for f in r.fees { if f.amount.u128() > 1_000 {
+                                out.monitor_fail("C10", &format!("after CollectFees pair {} still holds {} of pending protocol fees (above its minimum collectable balance)", i, f.amount), replay.clone()); } } }
+                        }
+                    }
+                }
                 for a in 1..4 { if matches!(e, Ev::Aggregate { .. }) {
                     if after.coll[a] != before.coll[a] && after.coll[a] != 0 { out.monitor_fail("C10", "an asset was neither swapped entirely nor left untouched", replay.clone()); }
                     if after.coll[a] != before.coll[a] && before.coll[a] <= MINAGG { out.monitor_fail("C10", "a balance not above MINIMUM_AGGREGABLE_BALANCE was swapped", replay.clone()); }
@@ -252,6 +268,14 @@ impl Exec {
             }
             Ev::NewEpoch { .. } if ok => {
                 self.n_epochs += 1;
+                // "the protocol fees pending in the registered pools and vaults are collected": afterwards a vault owes nothing
+                // (its collection has no minimum and nothing in the pipeline borrows from it)
+                for (i, v) in self.w.vaults.iter().enumerate() {
+                    let r: Result<white_whale_std::vault_network::vault::ProtocolFeesResponse, _> = self.w.w.app.wrap().query_wasm_smart(v, &white_whale_std::vault_network::vault::QueryMsg::ProtocolFees { all_time: false });
+                    if let Ok(r) = r { if !r.fees.amount.is_zero() {
+                        out.monitor_fail("C10", &format!("after the new epoch the vault of {} still holds {} of pending protocol fees", A[VAULT_ASSETS[i]], r.fees.amount), replay.clone()); } }
+                }
+                // (no such statement for the pools: the aggregation swaps run through them after the collection and charge new fees)
                 let dao_delta = after.dao - before.dao;
                 let dist_delta = after.dist - before.dist;
                 let b = dao_delta + dist_delta + after.coll[0];       // the collector's balance of the distribution asset when the reply ran
